@@ -519,7 +519,7 @@ IN_INITS = ['good', 'eof-before-init', 'rst-before-init', 'silent', 'garbage', '
             'unknown-pierce-ticket', 'good-then-immediate-eof']
 ENDINGS = ['local-1', 'local-2', 'local-3', 'remote-eof', 'remote-rst', 'read-timeout', 'write-timeout',
            'local-and-remote', 'stop-client', 'disconnect-while-connecting', 'write-timeout-queued',
-           'cancel-during-disconnect', 'cancel-during-disconnect']
+           'cancel-during-disconnect', 'cancel-during-disconnect', 'cancel-while-connecting']
 
 
 def run_c10_endings_case(res: dict, rng: random.Random, seed: Any):
@@ -532,7 +532,7 @@ def run_c10_endings_case(res: dict, rng: random.Random, seed: Any):
     for _ in range(n_conns):
         direction = rng.choice(['in', 'in', 'out'])
         ending_ = rng.choice(ENDINGS)
-        if ending_ == 'disconnect-while-connecting':
+        if ending_ in ('disconnect-while-connecting', 'cancel-while-connecting'):
             direction = 'out'
         specs.append({
             'direction': direction,
@@ -543,6 +543,9 @@ def run_c10_endings_case(res: dict, rng: random.Random, seed: Any):
             'gap': rng.choice([0.0, 0.01, 0.5]),
             # when the task running disconnect() is cancelled: after k loop steps or d seconds
             'cancel_after': rng.choice([['y', k] for k in range(0, 11)] + [['t', 0.02], ['t', 0.07], ['t', 0.2]]),
+            # disconnect-while-connecting: when, relative to the 3 s the connect takes (just before it completes:
+            # a listener still handling the CLOSING notification then sees the connect complete)
+            'disconnect_at': rng.choice([1.0, 2.97, 2.999, 3.0]),
         })
     # an application listener for connection state changes that suspends (listeners are public API): none,
     # k loop steps, or a sleep
@@ -593,7 +596,18 @@ def run_c10_endings_case(res: dict, rng: random.Random, seed: Any):
                 me.client.settings.network.peer.obfuscate = sp['obf']
                 slow_ports.update({bob.port, bob.obf_port})
                 task = w.spawn('me', net.create_peer_connection(bob.name, sp['typ']), name='vf-c10-slow-connect')
-                await asyncio.sleep(1.0)
+                # the address lookup takes some ms before the connect starts: aim relative to the connect itself
+                n_log = len(w.net.connect_log)
+                t_conn = None
+                for _ in range(400):
+                    started = [e for e in w.net.connect_log[n_log:] if e['node'] == 'me' and e['port'] in slow_ports]
+                    if started:
+                        t_conn = started[0]['t'] + 1000.0       # the instant the TCP connect started
+                        break
+                    await asyncio.sleep(0.001)
+                if t_conn is None:
+                    t_conn = w.loop.time()
+                await asyncio.sleep(max(0.0, t_conn + sp['disconnect_at'] - 0.0015 - w.loop.time()))
                 pending = [c for c in net.peer_connections if c.username == bob.name and c.state.name == 'CONNECTING']
                 n_calls = rng.choice([1, 2])
                 for c in pending:
@@ -601,6 +615,24 @@ def run_c10_endings_case(res: dict, rng: random.Random, seed: Any):
                 obs['endings_judged'] += 1 if pending else 0
                 await asyncio.gather(task, return_exceptions=True)
                 await settle(3.0)
+                conn = None
+            elif sp['direction'] == 'out' and sp['ending'] == 'cancel-while-connecting':
+                # address given: the connect starts at once; the request is cancelled after k loop steps / d seconds
+                # (with a suspending application listener: while CONNECTING / CONNECTED is being notified)
+                me.client.settings.network.peer.obfuscate = sp['obf']
+                task = w.spawn('me', net.create_peer_connection(
+                    bob.name, sp['typ'], ip=w.net.ip_of(bob.name), port=bob.obf_port if sp['obf'] else bob.port,
+                    obfuscate=sp['obf']), name='vf-c10-cancelled-connect')
+                how, amount = sp['cancel_after']
+                if how == 'y':
+                    for _ in range(amount):
+                        await asyncio.sleep(0)
+                else:
+                    await asyncio.sleep(amount)
+                task.cancel()
+                await asyncio.gather(task, return_exceptions=True)
+                obs['endings_judged'] += 1
+                await settle(1.0)
                 conn = None
             elif sp['direction'] == 'out':
                 me.client.settings.network.peer.obfuscate = sp['obf']
